@@ -86,4 +86,10 @@ CHECKS["C14"] = dict(level="exploration", technique="symbolic derivative D(e,x) 
          "differentiate() with respect to x and y, evaluated at (2,3), must equal the exact rational value of D(e,x); for each documented "
          "function the derivative must either throw or agree with a Richardson finite difference of the evaluator's own values.",
     note="Exponents of ** are variable-free positive integers in the exact fragment; function derivatives have a finite-difference oracle (1e-6).", ref="8/C14")
+CHECKS["C12"] = dict(level="model_checking", technique="TLC model checking of the adaptive step-control loop (Integration.tla) + exact rational oracle for monomials judged by TLC",
+    text="The step control of RungeKutta42/54 is a transition system (accept/reject, rescale, clip) model-checked exhaustively on an integer "
+         "time grid for 'stops exactly at tf' and 'no overshoot' (the pinned guard t < tf - dt/2 is rejected by TLC); the implementation is "
+         "bound by replaying every position of the first step relative to the interval with y' = t^k, whose exact integral (rationals) "
+         "reveals both the order and the final time; the 15-point Gauss-Kronrod rule is replayed on t^k, k <= 22, over 16 intervals.",
+    note="Unbounded intervals and analytic integrands are not covered; RK2/RK4 are run with steps dividing the interval.", ref="8/C12")
 NOT_APPLICABLE = {}
